@@ -72,7 +72,7 @@ def run(tier, seed):
     try:
         progs = out['progs']
         cases, nsweeps, dropped = sweeps_for(chk, progs, rng, 3 if quick else 6, 2 if quick else 3, out['root'])
-        res, st = runner.validate_sweeps(cases, workers=4, parallel=4)
+        res, st = runner.validate_sweeps(cases, workers=2, parallel=8)
         nacc = nrej = 0
         undef = 0
         sample = None
@@ -139,7 +139,7 @@ def c_stage(chk, progs, rng, nctx=2, label='program'):
                               {'program': p.name, 'args': p.args, 'source': p.src, 'log': p.buildlog[-2000:]})
         out['binaries'] = len([p for p in built if p.bin])
         swcases, nsweeps, dropped = sweeps_for(chk, built, rng, nctx, max(1, nctx - 1), root)
-        swres, swst = runner.validate_sweeps(swcases, workers=4, parallel=4)
+        swres, swst = runner.validate_sweeps(swcases, workers=2, parallel=8)
         for c, (v, reps) in zip(swcases, swres):
             if v == 'ACCEPT':
                 out['accepted'] += 1
